@@ -18,8 +18,8 @@ Representation
 * sparse matrix: `Coo K = List (ℕ × ℕ × K)` with semantics `toFun` (duplicates add, as `scipy.sparse` does on
   conversion / addition); the sparse `+=` accumulation is list concatenation;
 * dense vectors: `List K`; a vector placed in a longer one is the function `placeVec`;
-* python exceptions of the glue itself (`AttributeError` of `s.flange.get_size()` for a flange-less
-  `BladeStiff2D`) are `none`.
+* `Option` results: `none` would be a python exception of the glue itself (there is none left: a flange-less
+  `BladeStiff2D` is skipped by `get_size` and `calc_fext`).
 -/
 import Mathlib.Algebra.Field.Defs
 
@@ -273,15 +273,15 @@ def bayBlocks (kind : MatKind) (b : Bay K) : List (Block K) :=
 /-- `StiffPanelBay.calc_k0/kG0/kM` -/
 def bayCalc (kind : MatKind) (b : Bay K) : Coo K := finalize (placeAll (bayBlocks kind b))
 
-/-- `StiffPanelBay.get_size`: `s.flange.get_size()` raises for a flange-less `BladeStiff2D` (`none`) -/
+/-- `StiffPanelBay.get_size`: a flange-less `BladeStiff2D` is skipped (`if s.flange is not None`) -/
 def bayGetSize (b : Bay K) : Option Nat :=
-  let s2 := b.b2.foldl (fun acc s => acc.bind fun z => s.flange.map fun f => z + f.1) (some b.skinSize)
+  let s2 := b.b2.foldl (fun acc s => acc.map fun z => z + s.flangeSize) (some b.skinSize)
   b.ts.foldl (fun acc s => acc.map fun z => z + (s.baseSize + s.flangeSize)) s2
 
-/-- `StiffPanelBay.calc_fext`: skin vector, then per `BladeStiff2D` its flange vector (`none`: `s.flange.model`
-raises for a flange-less one), then per `TStiff2D` base and flange vectors, concatenated -/
+/-- `StiffPanelBay.calc_fext`: skin vector, then per `BladeStiff2D` its flange vector (a flange-less one is skipped),
+then per `TStiff2D` base and flange vectors, concatenated -/
 def bayFext (skin : List K) (b2 : List (Option (List K))) (ts : List (List K × List K)) : Option (List K) :=
-  let s2 := b2.foldl (fun acc s => acc.bind fun z => s.map fun f => z ++ f) (some skin)
+  let s2 := b2.foldl (fun acc s => acc.map fun z => z ++ s.getD []) (some skin)
   ts.foldl (fun acc s => acc.map fun z => z ++ s.1 ++ s.2) s2
 
 end
